@@ -128,8 +128,8 @@ def argsort_instance(eng, st, K, n):
         # arrangement is the reverse of the ascending one key-wise.
         inst = eng.sigma_instance(st, K, n)
         sa, sd = inst["asc"][0], inst["desc"][0]
-        ax.append(z3.ForAll([k], z3.Implies(inr(k), z3.And(K[sig(k)] == K[sa(k)], K[sd(k)] == K[sa(n - 1 - k)])),
-                            patterns=[sig(k)]))
+        ax.append(z3.ForAll([k], z3.Implies(inr(k), K[sig(k)] == K[sa(k)]), patterns=[sig(k), sa(k)]))
+        ax.append(z3.ForAll([k], z3.Implies(inr(k), K[sd(k)] == K[sa(n - 1 - k)]), patterns=[sd(k)]))
         eng.ctx.tags.add("LEMMA_L1_sorted_arrangements_coincide")
         hit = (nm, sig, inv, ax)
         eng._axiom_cache[ck] = hit
@@ -210,8 +210,15 @@ def construct(eng, st, ci, args, kw, node):
         env = eng.bind_args(init[0], [], dict(kw), node, self_v=ref)
         eng.apply_contract(st, c, init[0], eng.src.modules[init[1].module], env, node)
         return ref
-    decl = _declared_fields(eng, ci)
     ref = V(("obj", ci.name), st.new_ref(ci.name.lower()))
+    pydantic_init(eng, st, ref, ci, kw, node)
+    return ref
+
+
+def pydantic_init(eng, st, ref, ci, kw, node):
+    """BaseModel.__init__(**kw): declared fields are set from kw (lists copied, int -> float), unknown keys ignored,
+    then the validators of the class run."""
+    decl = _declared_fields(eng, ci)
     for name, (ann, default) in decl.items():
         if name not in eng.reg.field_types:
             raise Unsupported(f"field {ci.name}.{name} is not declared in the contracts")
@@ -244,7 +251,28 @@ def construct(eng, st, ci, args, kw, node):
                 env = {"self": ref}
             eng.apply_contract(st, vc, m, eng.src.modules[c_.module], env, node)
     eng.ctx.tags.add("AX_pydantic_constructor")
-    return ref
+
+
+def super_call(eng, st, recv, name, args, kw, node):
+    self_v, cls = recv.items
+    if name != "__init__" or args:
+        raise Unsupported(f"super().{name}")
+    mro = eng.src.mro(cls)
+    for c in mro[1:]:
+        if "__init__" in c.methods:
+            k = eng.reg.get(f"{c.qname}.__init__")
+            if k is None:
+                raise Unsupported(f"{c.name}.__init__ has no contract")
+            env = eng.bind_args(c.methods["__init__"], [], dict(kw), node, self_v=self_v)
+            eng.apply_contract(st, k, c.methods["__init__"], eng.src.modules[c.module], env, node)
+            return NONE
+    # no __init__ in the repository above this class: pydantic's BaseModel.__init__ (or object)
+    if any("BaseModel" in c.bases for c in mro):
+        pydantic_init(eng, st, self_v, cls, kw, node)
+    return NONE
+
+
+BuiltinMixin.super_call = super_call
 
 
 BuiltinMixin.construct = construct
@@ -260,3 +288,25 @@ def lib_np_dot(eng, st, args, kw, node):
 
 
 LIB[("numpy", "dot")] = lib_np_dot
+
+
+def lib_np_random_seed(eng, st, args, kw, node):
+    """np.random.seed(s): None, or an integer in [0, 2**32); a float raises TypeError, an out-of-range int ValueError"""
+    s = args[0]
+    eng.ctx.tags.add("AX_numpy_legacy_rng_seeded_by_seed")
+    if s.t[0] == "none":
+        return NONE
+    isnone = s.none if s.none is not None else z3.BoolVal(False)
+    if s.t[0] == "float":
+        if eng.choose(st, z3.Not(isnone)):
+            raise PyRaise("TypeError", eng.loc(node))
+        return NONE
+    if s.t[0] == "int":
+        if eng.choose(st, z3.And(z3.Not(isnone), z3.Or(s.z < 0, s.z >= 2 ** 32))):
+            raise PyRaise("ValueError", eng.loc(node))
+        st.ghost["seeded"] = True
+        return NONE
+    raise Unsupported(f"np.random.seed({s.t})")
+
+
+LIB[("numpy.random", "seed")] = lib_np_random_seed
